@@ -143,6 +143,12 @@ func init() {
 			bound: "every assignment of {no reference, reference to A, B or C} to three event inputs and two block fields (4^5 = 1024) x two declaration orders through the real ValidateFix: Dependencies is exactly the set of referenced integrations, each referenced table gets an index on the referenced column, each reference gets the referenced table's name",
 		})}
 	})
+	boundedChecks["C11"] = append(boundedChecks["C11"], func(w *World, tier string, seed int, verif string) []boundedResult {
+		return []boundedResult{runHarness(w, verif, tier, seed, harnessSpec{
+			name: "plan-all-pairs", pkg: "dig", pkgName: "dig", dir: "plan", files: []string{"plan_bounded_test.go"}, run: "TestVerifPlanBounded",
+			bound: "every field name of the row builder (read from the source) alone and in every ordered pair, in tx, log and trace indexing mode, through the real dig.New -> Filter -> jrpc2.Client.Get -> Integration.Insert against a scripted JSON-RPC node in which every field of every item (2 transactions, 2 trace actions each) has a distinct non-zero value: each stored column must equal the value of the field it names for that very item; plus 30 ordered pairs of data plans on one shared client",
+		})}
+	})
 	boundedChecks["C09"] = append(boundedChecks["C09"], func(w *World, tier string, seed int, verif string) []boundedResult {
 		return []boundedResult{runHarness(w, verif, tier, seed, harnessSpec{
 			name: "abi-decode-vs-spec", pkg: "dig", pkgName: "dig", dir: "abi", files: []string{"abi_bounded_test.go"}, run: "TestVerifABIBounded",
